@@ -18,7 +18,7 @@ import vkit  # noqa: F401
 from vkit.trace import Trace, describe_exc, is_cancellation, make_exc
 from vkit.vtime import VirtualDeadlock, run_virtual
 
-N_TYPES = 4
+N_TYPES = 5
 NAMES = ["default", "x", "y"]
 WINDOW = 1000.0  # virtual seconds observed after start_component returned / raised
 
@@ -41,7 +41,9 @@ class RT3(__import__("enum").Enum):
     GREEN = 2
 
 
-RTYPES: list[type] = [RT0, RT1, RT2, RT3]
+# (the last one is no class but a `typing` generic alias: a resource type like any other, whether given explicitly or taken from a
+# factory's return annotation)
+RTYPES: list[Any] = [RT0, RT1, RT2, RT3, __import__("typing").List[RT0]]
 
 # --------------------------------------------------------------------------- generation
 
@@ -653,6 +655,9 @@ class Run:
                     def lazy_factory(make: Any = afactory, rid: str = rid) -> Any:
                         return Deferred(make()) if int(rid) % 2 else generator_based(make())
 
+                    if int(rid) % 6 == 1:
+                        # ... given as a configured factory *object* that is unhashable (a plain @dataclass with __call__)
+                        lazy_factory = type("LazyFactory", (), {"__call__": lambda self, f=lazy_factory: f(), "__eq__": lambda s, o: s is o, "__hash__": None})()
                     add_resource_factory(lazy_factory, r["given_name"], types=[T])
                     self.awaitable_object_factories += 1
                 elif int(rid) % 4 == 2:
